@@ -305,4 +305,13 @@ seq(prop="C12", lean_targets=["TransportVerif.Props.C12"], pkg="udp", run="^Test
                        "vrewrite, cosched"],
     assumptions=["at most one Close caller per object in the concurrent phase (idempotence is exercised sequentially afterwards)", "port re-bindability and 'no goroutine left' are observed by the harness only"])
 
+_CTX_KINDS = "select,recv,wait,go"
+seq(prop="C17", lean_targets=["TransportVerif.Props.C17"], pkg="netctx", run="^TestVerifCtxConn$", component="ctx",
+    files=["ctx_h_test.go"], quick_n=300, thorough_n=20000, search_n=2000,
+    variants=[dict(name="conn", overlay_fn=_yield_k("netctx/conn.go", ["ReadContext", "WriteContext"], _CTX_KINDS)),
+              dict(name="packet", run="^TestVerifCtxPacket$", overlay_fn=_yield_k("netctx/packetconn.go", ["ReadFromContext", "WriteToContext"], _CTX_KINDS)),
+              dict(name="connctx", pkg="connctx", run="^TestVerifCtx$", overlay_fn=_yield_k("connctx/connctx.go", ["ReadContext", "WriteContext"], _CTX_KINDS))],
+    nontrivial=["cancel-during-call", "call-transfers-after-cancel", "select-both-ready-ctx", "select-both-ready-done", "deadline-restored", "returns-data-despite-cancel", "cancelled-before", "wait-parks", "recv-parks"],
+    rule="TODO", design_ref="DESIGN.md 7.17", technique="TODO", level_text="TODO", level_note="TODO", trusted=LEAN_TB, assumptions=[])
+
 ALL = SEQ
